@@ -4,8 +4,8 @@ import (
 	"encoding/json"
 	"fmt"
 	"os"
-	"regexp"
 	"path/filepath"
+	"regexp"
 	"strings"
 	"time"
 
@@ -105,9 +105,16 @@ func fmtParse(out string, words []string) []map[string]interface{} {
 		return lines
 	}
 	segs := strings.Split(out, "\n")
-	pos := map[string]int{}
-	for i, w := range words {
-		pos[w] = i + 1
+	// word texts may repeat in long lists: an output word is the next input word with that text
+	cur := 0
+	next := func(f string) int {
+		for k := cur; k < len(words); k++ {
+			if words[k] == f {
+				cur = k + 1
+				return k + 1
+			}
+		}
+		return 0
 	}
 	for si, seg := range segs {
 		end := ""
@@ -124,11 +131,7 @@ func fmtParse(out string, words []string) []map[string]interface{} {
 		ws := []int{}
 		// words are separated by exactly one blank; "{C S}" contains one
 		for _, f := range splitFmtWords(seg) {
-			if p, ok := pos[f]; ok {
-				ws = append(ws, p)
-			} else {
-				ws = append(ws, 0)
-			}
+			ws = append(ws, next(f))
 		}
 		lines = append(lines, map[string]interface{}{"ws": ws, "end": end})
 	}
@@ -238,6 +241,47 @@ func checkC07(c *Ctx) {
 				}
 			}
 		}
+	}
+	// long texts: 40-160 tokens (many lines, many paragraphs), parameters from a wider range
+	nlong := 60
+	if !c.Quick() {
+		nlong = 1500
+	}
+	for k := 0; k < nlong; k++ {
+		n := 40 + r.Intn(121)
+		toks := make([]int, n)
+		for i := range toks {
+			toks[i] = 1 + r.Intn(3)
+			if r.Chance(1, 9) {
+				toks[i] = 4 + r.Intn(4)
+			}
+		}
+		max, ov, nl, sp := 4+r.Intn(30), r.Intn(6), 1+r.Intn(12), 1+r.Intn(2)
+		text, words, model := fmtRender(toks, r, k)
+		fc := parser.FontConfig{DefaultFontID: "T", Fonts: map[string]parser.Fonts{"T": fmtFont(sp)}}
+		out, ferr := safeFormat(&fc, text, max, ov, "T", nl)
+		id := fmt.Sprintf("long%d", k)
+		describe[id] = fmt.Sprintf("FormatText(%q, max=%d, overlap=%d, font with blank=%d px, numLines=%d) = %q err=%v", text, max, ov, sp, nl, out, ferr)
+		recs = append(recs, map[string]interface{}{"id": id, "P": map[string]int{"max": max, "ov": ov, "nl": nl, "sp": sp},
+			"T": model, "lines": fmtParse(out, words), "err": ferr != nil})
+	}
+	// boxes with very many lines: one paragraph of several hundred one-word lines, numLines around 128 / 256
+	for k, nl := range []int{100, 127, 128, 129, 200, 255, 256, 257, 400} {
+		n := 420
+		toks := make([]int, n)
+		for i := range toks {
+			toks[i] = 2 + i%2
+		}
+		if k%3 == 1 {
+			toks[n/2] = 7 // one \N in the middle
+		}
+		text, words, model := fmtRender(toks, r, 0) // variant 0 would vary shapes by position: fine
+		fc := parser.FontConfig{DefaultFontID: "T", Fonts: map[string]parser.Fonts{"T": fmtFont(1)}}
+		out, ferr := safeFormat(&fc, text, 4, 1, "T", nl)
+		id := fmt.Sprintf("tall%d", nl)
+		describe[id] = fmt.Sprintf("FormatText(<420 words>, max=4, overlap=1, numLines=%d) err=%v", nl, ferr)
+		recs = append(recs, map[string]interface{}{"id": id, "P": map[string]int{"max": 4, "ov": 1, "nl": nl, "sp": 1},
+			"T": model, "lines": fmtParse(out, words), "err": ferr != nil})
 	}
 	ndirect := len(recs)
 
